@@ -381,6 +381,9 @@ func (w *World) CheckTypeInjection(out *Outcome, o *Obs) []Violation {
 				if c == "" && strings.HasPrefix(g, "?") && w.Resolve(i, pt).Foreign {
 					continue // the container's own components are registered components too
 				}
+				if fb, ok := o.Fallbacks[key]; ok && fb == g && !(created[i.ID] && o.OK()) {
+					continue // the holder was never populated: the application's fallback is still there
+				}
 				seen[c]++
 				if c == i.ID && !pt.Single() {
 					vs = append(vs, v("C06", "slice-contains-holder", key, fmt.Sprintf("slice point %s contains its own holder", key)))
@@ -541,6 +544,9 @@ func (w *World) CheckByName(out *Outcome, o *Obs) []Violation {
 			for _, g := range got {
 				if ps, ok := o.Presets[key]; ok && ps == g {
 					continue // the application's own object, judged below (must stay)
+				}
+				if fb, ok := o.Fallbacks[key]; ok && fb == g && !(created[i.ID] && o.OK()) {
+					continue // the holder was never populated: the application's fallback is still there
 				}
 				c := w.componentOf(g)
 				if c == i.ID && r.SelfOnly {
